@@ -117,6 +117,10 @@ class Track(object):
 
                 # warning should hold note
                 duration = value.subtract(duration, dur)
+                if notes is not None:
+                    # the piece carried over the bar line is a container of
+                    # its own, not the object that was just placed
+                    notes = NoteContainer(notes)
 
         def add_chord(chord, duration):
             if chord is None:
